@@ -46,6 +46,14 @@ def run(ctx):
                 off = rng.randrange(0, pl + 1)
                 ln = rng.randrange(0, pl - off + 1)
                 cases.append((fn, (rng.randbytes(rng.choice((8, 16, 24))), rnd(16), rnd(rng.randrange(4, 17)), rnd(pl), off, ln, pad)))
+        # structured decimalisation tables: the default, the identity prefix with other tails, constant, reversed, one
+        # entry changed - a table is data, every entry of it must be honoured for every hex digit
+        for table in ("0123456789012345", "0123456789543210", "0123456789999999", "0123456789000000", "0123456789123456",
+                      "9876543210987654", "0000000000000000", "7777777777777777", "1234567890123456", "0123456789012346",
+                      "1123456789012345", "0123456780012345"):
+            for _ in range(ctx.n(4, 16)):
+                pl = rng.randrange(12, 20)
+                cases.append((fn, (rng.randbytes(rng.choice((8, 16, 24))), table, rnd(rng.randrange(4, 17)), rnd(pl), 0, min(pl, 16), rng.choice("0F9a"))))
         # windows: all (start, length) for one PAN of 19 incl. > 16 and empty, and a few past the end
         pan = rnd(19)
         pvk, table = rng.randbytes(16), rnd(16)
